@@ -329,4 +329,119 @@ theorem rm_attrpath_refines (d : Doc) (hw : WF d) (hcoh : Coh d.target) (p : Tex
         rw [lookup_of_findBinding pvs final lid false val bf af hpn h5]; rfl)]
       rfl
 
+theorem set_fresh_goes_last (d : Doc) (hw : WF d) (p seg : Text) (v : Node)
+    (hp : formatNPath currentAnchor p = .ok [seg])
+    (hroot : findAttrpathRoot d.target.setValues seg = none)
+    (hnew : seg ∉ Kids.keys (denote d.target).kids) :
+    ∃ d', setValue p (.one v) d = (.ok (), d') ∧
+      d'.target.setValues = d.target.setValues ++ [.bind d.next seg false v [] []] ∧
+      d'.target.setOrder = (if d.target.setOrder.isEmpty then []
+        else d.target.setOrder ++ [.bind d.next seg false v [] []]) ∧
+      (denote d'.target).kids = (denote d.target).kids ++ [(seg, denote v)] := by
+  obtain ⟨c, vs, o, m, r, ht⟩ := (isSet_iff _).mp hw.isSet
+  rw [ht] at hroot hnew
+  simp only [denote_set, AttrTree.kids_node] at hnew
+  have hnone : findBinding (Node.set c vs o m r).setValues seg = none := by
+    cases hf : findBinding (Node.set c vs o m r).setValues seg with
+    | none => rfl
+    | some b => exact absurd (findBinding_key_mem vs seg b hf) hnew
+  obtain ⟨d', e, _, _, htd⟩ := setSetItem_fresh (Node.set c vs o m r) seg v c d hnone rfl
+  refine ⟨d', ?_, ?_⟩
+  · rw [setValue_unscoped p v d hw.editable (formatNPath_unscoped p _ hp)]
+    simp only [setValueInAttrset, hp, ht, setSid_set, findAttrpathLeaf_single, List.isEmpty_nil, if_true, hroot,
+      Option.isSome_none, Bool.false_eq_true, if_false, hnone]
+    exact e
+  · rw [htd, ht]
+    simp only [updSet, if_true, Function.comp, appF, ordF, setValues, setOrder]
+    cases o with
+    | nil => simp
+    | cons a b => simp
+
+/-! ## Counterexamples (open known findings) -/
+
+private def A (s : String) : Node := .atom s.toList
+
+/-- `{ b = { a.p = 1; a.q = 2; }; }` exactly as the parser builds it: the nested set `b` holds the merged
+    attrpath root `a` (`nested = true`) in `values` and two `_AttrpathEntry` items in `attrpath_order`. -/
+def docNestedFamily : Doc :=
+  let leafP : Node := .bind 5 "p".toList false (A "1") [] []
+  let leafQ : Node := .bind 6 "q".toList false (A "2") [] []
+  let famA : Node := .bind 3 "a".toList true (.set 4 [leafP, leafQ] [] true false) [] []
+  let setB : Node := .set 2 [famA]
+    [.entry ["a".toList, "p".toList] leafP (some []) (some []),
+     .entry ["a".toList, "q".toList] leafQ (some []) (some [])] true false
+  let bindB : Node := .bind 1 "b".toList false setB [] []
+  { target := .set 0 [bindB] [bindB] true false, next := 7 }
+
+theorem docNestedFamily_wf : WF docNestedFamily :=
+  ⟨rfl, rfl, by decide, by decide, rfl, rfl⟩
+
+/-- FULL statement "what the text shows follows what Nix is meant to read": false of the code. -/
+def rendered_follows_full : Prop :=
+  ∀ (d : Doc) (p : Text) (d' : Doc), WF d → renderedTree d.target = denote d.target →
+    removeValue p d = (.ok (), d') → renderedTree d'.target = denote d'.target
+
+/-- Open finding C05-nested-attrpath-family: `rm b.a.p` succeeds, `values` change as specified, but the
+    nested set still renders its (unchanged) `attrpath_order`: the text is what it was. -/
+theorem cex_nested_family :
+    let d := docNestedFamily
+    let d' := (removeValue "b.a.p".toList d).2
+    (removeValue "b.a.p".toList d).1 = .ok () ∧
+    specRemove (denote d.target) ["b".toList, "a".toList, "p".toList] false = some (denote d'.target) ∧
+    renderedTree d.target = denote d.target ∧
+    renderedTree d'.target = renderedTree d.target ∧
+    renderedTree d'.target ≠ denote d'.target := by
+  refine ⟨rfl, rfl, rfl, rfl, ?_⟩
+  intro h
+  have e1 : renderedTree (removeValue "b.a.p".toList docNestedFamily).2.target =
+      .node [("b".toList, .node [("a".toList, .node [("p".toList, .leaf (A "1")), ("q".toList, .leaf (A "2"))])])] := rfl
+  have e2 : denote (removeValue "b.a.p".toList docNestedFamily).2.target =
+      .node [("b".toList, .node [("a".toList, .node [("q".toList, .leaf (A "2"))])])] := rfl
+  rw [e1, e2] at h
+  simp at h
+
+theorem cex_rendered_follows : ¬ rendered_follows_full := by
+  intro h
+  have := h docNestedFamily "b.a.p".toList (removeValue "b.a.p".toList docNestedFamily).2 docNestedFamily_wf rfl rfl
+  exact cex_nested_family.2.2.2.2 this
+
+/-- `{ inherit v; }` -/
+def docInherit : Doc :=
+  let inh : Node := .inherit 1 ["v".toList]
+  { target := .set 0 [inh] [inh] true false, next := 2 }
+
+theorem docInherit_wf : WF docInherit := ⟨rfl, rfl, by decide, by decide, rfl, rfl⟩
+
+/-- FULL statement of `set_plain_refines`, excluding only identifier-valued *bindings*: false. -/
+def set_plain_full : Prop :=
+  ∀ (d : Doc) (p seg : Text) (v : Node), WF d → formatNPath currentAnchor p = .ok [seg] →
+    findAttrpathRoot d.target.setValues seg = none →
+    (∀ b, findBinding d.target.setValues seg = some b → ∀ val, b.bindValue? = some val → isIdentNode val = false) →
+    ∃ d', setValue p (.one v) d = (.ok (), d') ∧ specSet (denote d.target) [seg] v = some (denote d'.target)
+
+/-- Open finding C05-inherit-duplicate: `set v 7` on `{ inherit v; }` appends a binding next
+    to the inherit clause; the result defines `v` twice. -/
+theorem cex_inherit_duplicate :
+    let d' := (setValue "v".toList (.one (A "7")) docInherit).2
+    (setValue "v".toList (.one (A "7")) docInherit).1 = .ok () ∧
+    (denote d'.target).nodup = false ∧
+    specSet (denote docInherit.target) ["v".toList] (A "7") ≠ some (denote d'.target) := by
+  refine ⟨rfl, rfl, ?_⟩
+  intro h
+  have e1 : specSet (denote docInherit.target) ["v".toList] (A "7") =
+      some (.node [("v".toList, .leaf (A "7"))]) := rfl
+  have e2 : denote (setValue "v".toList (.one (A "7")) docInherit).2.target =
+      .node [("v".toList, .leaf (.ident "v".toList)), ("v".toList, .leaf (A "7"))] := rfl
+  rw [e1, e2] at h
+  simp at h
+
+theorem cex_set_plain_full : ¬ set_plain_full := by
+  intro h
+  obtain ⟨d', e, hs⟩ := h docInherit "v".toList "v".toList (A "7") docInherit_wf rfl rfl
+    (fun b hb => by simp [docInherit, setValues, findBinding, isBind] at hb)
+  have h1 := cex_inherit_duplicate.2.2
+  have : d' = (setValue "v".toList (.one (A "7")) docInherit).2 := by rw [e]
+  rw [this] at hs
+  exact h1 hs
+
 end Nima.C05
